@@ -2082,6 +2082,10 @@ def drv_typed_roundtrip(tier, seed):
 # ---------------------------------------------------------------------------
 
 
+LIST_VS_EMPTY_DICT = 'list-and-empty-dict-candidates'
+REF_NONSYM = 'ref-to-nonsymbolic-eq-object'
+
+
 def kind_families():
   """name -> three factories of pairwise distinguishable constant candidates."""
   sc = lambda **kw: (lambda: O(SC, **kw))
@@ -2094,10 +2098,19 @@ def kind_families():
                              lambda: D(a=D(x=1, y=D()))]),
       ('nested-empty-list', [lambda: L([L([])]), lambda: L([L([0])]),
                              lambda: D(a=L([]))]),
-      ('object-with-empty-container-field',
+      ('object-with-empty-dict-field',
        [lambda: O(A, x=1, y=D()), lambda: O(A, x=1, y=D(k=1)),
-        lambda: O(A, x=1, y=L([]))]),
-      ('empty-containers-and-none', [lambda: D(), lambda: L([]), lambda: C(None)]),
+        lambda: O(A, x=1, y=D(k=1, l=D()))]),
+      ('object-with-empty-list-field',
+       [lambda: O(A, x=1, y=L([])), lambda: O(A, x=1, y=L([0])),
+        lambda: O(A, x=1, y=L([0, L([])]))]),
+      ('empty-dict-and-leaves', [lambda: D(), lambda: C(None), lambda: C('')]),
+      ('empty-list-and-leaves', [lambda: L([]), lambda: C(None), lambda: C(0)]),
+      # A list node of the template meets an empty dict value (one input class
+      # whatever the placement: see LIST_VS_EMPTY_DICT).
+      (LIST_VS_EMPTY_DICT, [lambda: L([]), lambda: D(), lambda: L([1])]),
+      (LIST_VS_EMPTY_DICT, [lambda: O(A, x=1, y=L([])), lambda: O(A, x=1, y=D()),
+                            lambda: O(A, x=2, y=L([0]))]),
       ('symbolized-class-object', [sc(k=3), sc(k=5), sc(k=3, m=1)]),
       ('object-with-identity-eq', [ne(k=3), ne(k=5), ne(k=D(p=3))]),
       ('object-with-broad-eq', [we(k=3), we(k=5), we(k='x')]),
@@ -2160,13 +2173,16 @@ def kind_templates(tier, seed):
     for si, (shape, mk) in enumerate(shapes):
       if quick and not (si in (0, 1) or (si + fi + seed) % 3 == 0):
         continue
-      yield assign_names(mk()), f'{fam}.{shape}'
+      yield (assign_names(mk()),
+             fam if fam == LIST_VS_EMPTY_DICT else f'{fam}.{shape}')
+    if fam == LIST_VS_EMPTY_DICT:
+      continue
     # A reference to the chosen candidate (derived values are compared too).
-    nonsym = _has_nonsym(cs[0]()) or _has_nonsym(cs[1]()) or _has_nonsym(cs[2]())
-    rsig = 'ref-to-nonsymbolic-eq-object' if nonsym else f'{fam}.ref'
+    nonsym = any(_has_nonsym(c()) for c in cs)
     c0, c1, c2 = cs
     yield (assign_names(D(a=One([c0(), c1(), c2()]), b=Ref('a'),
-                          c=L([Ref('a')]))), rsig)
+                          c=L([Ref('a')]))),
+           REF_NONSYM if nonsym else f'{fam}.ref')
 
 
 def drv_candidate_kinds(tier, seed):
@@ -2175,9 +2191,9 @@ def drv_candidate_kinds(tier, seed):
       'C13', 'decode/encode/iter with candidates and constants that are empty '
       'or sub-containers of each other, or symbolic objects without symbolic '
       '`==` (vs reference model)',
-      scope='11 candidate families (dict key-subsets incl. {}, list prefixes '
+      scope='16 candidate families (dict key-subsets incl. {}, list prefixes '
       'incl. [], nested empty dict/list, object field holding {} / [], '
-      '{} / [] / None; pg.symbolize-d class, pg.Object with '
+      '{} or [] next to None / 0 / \'\', [] next to {}; pg.symbolize-d class, pg.Object with '
       'use_symbolic_comparison=False, pg.Object with a broader __eq__, and '
       'containers / nestings of those) x 22 placements (oneof constant '
       'candidates in both orders at the root and inside containers, nested '
